@@ -177,7 +177,7 @@ def main():
             ok = ingest(name, wt, prop, "see notes.md")
             print("   ->", "stored" if ok else "NOT confirmed")
         return
-    names = a.names or sorted(os.listdir(SEEDED))
+    names = a.names or sorted(n_ for n_ in os.listdir(SEEDED) if os.path.isdir(os.path.join(SEEDED, n_)))
     ALL = [f"C{i:02d}" for i in range(1, 20)]
 
     def job(n):
